@@ -86,6 +86,8 @@ func (e *Enc) callCommon(fr *Frame, st *State, cc *ssa.CallCommon, fnv *Val, arg
 				}
 				fr.contract.callAssertSeen(key)
 				e.addObl(&Obligation{Name: key + ":assert:" + clauseName(cl, i), Kind: "assert", Label: cl.Label, Clause: "at " + key + ": " + cl.Src, Reach: st.reach, Goal: g, Pos: e.posStr(pos)})
+				// an assertion that has its own obligation is a lemma for everything that follows on this path
+				e.assume(st, g)
 			}
 		}
 	}
@@ -124,6 +126,7 @@ func (e *Enc) callCommon(fr *Frame, st *State, cc *ssa.CallCommon, fnv *Val, arg
 			}
 		}
 		if c, ok := e.DB.Contracts[key]; ok && c.callable() {
+			c = e.pickAlt(c, append([]*Val{recv}, args...))
 			e.safety(fr, st, "nil", not(eq(recv.L[0].T, "0")), "method call on nil interface "+cc.Method.Name(), pos)
 			return e.applyContract(fr, st, c, append([]*Val{recv}, args...), rt, hint, pos)
 		}
@@ -220,8 +223,23 @@ func fnKey(fn *ssa.Function) string {
 	return fn.String()
 }
 
+// nondetPrefixes: functions whose result differs between nodes executing the same block.
+var nondetPrefixes = []string{"time.Now", "time.Since", "time.Until", "math/rand.", "math/rand/v2.", "crypto/rand.", "os.Getenv", "os.LookupEnv", "os.Environ", "os.Hostname", "os.Getpid", "runtime.NumCPU", "runtime.NumGoroutine", "runtime.GOMAXPROCS", "runtime.Caller", "runtime.Stack"}
+
+func isNondetSource(key string) bool {
+	for _, p := range nondetPrefixes {
+		if key == p || (strings.HasSuffix(p, ".") && strings.HasPrefix(key, p)) {
+			return true
+		}
+	}
+	return false
+}
+
 func (e *Enc) callStatic(fr *Frame, st *State, fn *ssa.Function, binds []*Val, args []*Val, rt types.Type, hint string, pos token.Pos) *Val {
 	key := fnKey(fn)
+	if e.top != nil && e.top.contract != nil && e.top.contract.Deterministic && e.dry == 0 && isNondetSource(key) {
+		e.addObl(&Obligation{Name: e.site(fr, "nondet:"+key, pos), Kind: "deterministic", Label: e.top.contract.DetLabel, Clause: "deterministic — call of the node-local source " + key, Reach: st.reach, Goal: "false", Pos: e.posStr(pos)})
+	}
 	if c, ok := e.DB.Contracts[key]; ok && c.callable() && len(binds) == 0 {
 		return e.applyContract(fr, st, c, args, rt, hint, pos)
 	}
@@ -455,6 +473,10 @@ func (e *Enc) applyContract(fr *Frame, st *State, c *Contract, args []*Val, rt t
 			e.assumedUsed[c.Key]++
 		}
 	}
+	if e.top != nil && e.top.contract != nil && e.top.contract.Deterministic && e.dry == 0 && !c.Deterministic && !c.Assumed && !c.Pure && c.funcType == "" && strings.HasSuffix(c.File, ".go") && !(c.Sig != nil && c.Sig.Recv() != nil && types.IsInterface(c.Sig.Recv().Type())) {
+		// a verified function of the repository that is not itself checked for node-local sources
+		e.addObl(&Obligation{Name: e.site(fr, "nondet:callee-not-deterministic:"+c.Key, pos), Kind: "deterministic", Label: e.top.contract.DetLabel, Clause: "deterministic — callee " + c.Key + " has a contract without a `deterministic` clause", Reach: st.reach, Goal: "false", Pos: e.posStr(pos)})
+	}
 	sig := c.Sig
 	vars := e.bindParams(c, args, sig)
 	short := c.funcType
@@ -508,6 +530,10 @@ func (e *Enc) applyContract(fr *Frame, st *State, c *Contract, args []*Val, rt t
 			e.havocAll(st)
 		} else {
 			menv := &Env{e: e, vars: vars, st: pre, old: pre, pkgPath: c.PkgPath, imports: c.Imports, cells: e.applyCells}
+			// the callee may allocate and may store what it allocated into the targets it modifies: the allocation counter
+			// moves BEFORE the targets are havocked, so that the typing fact "a reference read from memory is <= alloc" of a
+			// havocked reference leaf refers to the counter AFTER the call (it contradicted `ensures fresh(p.f)` otherwise)
+			e.bumpAlloc(st)
 			for i, m := range c.Modifies {
 				cond := "true"
 				if i < len(c.ModWhen) && c.ModWhen[i] != nil {
@@ -556,7 +582,6 @@ func (e *Enc) applyContract(fr *Frame, st *State, c *Contract, args []*Val, rt t
 					st.heap[k] = n
 				}
 			}
-			e.bumpAlloc(st)
 		}
 		if !c.Assumed {
 			// a verified callee may have handed out identities of the allocator ghost variables (not part of its frame)
@@ -881,6 +906,36 @@ func (e *Enc) encCopy(fr *Frame, st *State, cc *ssa.CallCommon, args []*Val, rt 
 		e.heapSet(st, k, sorts[i], "(store "+h+" "+d.L[0].T+" "+na+")")
 	}
 	return &Val{T: rt, L: []Sc{{n, "Int"}}}
+}
+
+// pickAlt: among the alternative assumed contracts of one method (Contract.Alts) choose the one that accepts the
+// statically known dynamic type of an interface-typed argument (`requires typeof(p) == type(T)`); without such
+// knowledge, or when no alternative accepts it, the first contract is used (its requires then fail at the call site).
+func (e *Enc) pickAlt(c *Contract, args []*Val) *Contract {
+	if len(c.Alts) == 0 {
+		return c
+	}
+	for _, cand := range append([]*Contract{c}, c.Alts...) {
+		vars := e.bindParams(cand, args, cand.Sig)
+		for _, g := range typeGuards(cand) {
+			v, ok := vars[g[0].(string)]
+			if !ok || len(v.L) != 2 {
+				continue
+			}
+			n, isConst := isConstTerm(v.L[0].T)
+			if !isConst {
+				continue
+			}
+			gt, err := e.resolveGoType(g[1].(*TypeExpr), cand.PkgPath, cand.Imports)
+			if err != nil {
+				continue // a type of a package that is not part of this load
+			}
+			if int64(e.TI.tagOf(gt)) == n.Int64() {
+				return cand
+			}
+		}
+	}
+	return c
 }
 
 // havocEffects: `modifies effects(f)` at a call site — the callee may do whatever calling the function value f does, any
